@@ -169,3 +169,118 @@ SPECS["C13"] = dict(
     level_note="Trusted: Kani/CBMC. Sizes bounded as listed; ln_1p stubbed in the constructor harness of SetSketcher.",
     technique="Kani/CBMC bounded model checking, full-state comparison after reset from a symbolic garbage state",
 )
+
+
+# --------------------------------------------------------------------------------------- C05
+_c05 = [
+    H("c05_merge_u16_m2", 900, "thorough", "SetSketcher<u16>::merge, equal parameters: position-wise max, commutative, idempotent, Inv (lower bound <= min register) kept, counters added, argument untouched", "m=2, all registers, all (b,a,q)"),
+    H("c05_merge_u16_m3", 900, "quick", "same", "m=3"),
+    H("c05_merge_u16_m5", 1200, "thorough", "same", "m=5"),
+    H("c05_merge_u32_m3", 900, "quick", "SetSketcher<u32>::merge, equal parameters", "m=3"),
+    H("c05_merge_assoc_m3", 900, "quick", "(x U y) U z == x U (y U z) at register level", "m=3, all u16 registers"),
+    H("c05_merge_assoc_m4", 900, "thorough", "same", "m=4"),
+    H("c05_merge_refused_m3", 900, "quick", "different (b|a|q): merge returns Err and every field of the receiver is unchanged", "m=3 both sides, symbolic (b,a,q) pairs"),
+    H("c05_merge_refused_m3_m2", 900, "quick", "different m: refused, receiver unchanged", "m=3 vs 2"),
+    H("c05_merge_refused_m2_m4", 900, "thorough", "different m (argument longer): refused, receiver unchanged", "m=2 vs 4"),
+]
+SPECS["C05"] = dict(
+    level="model_checking", harnesses=_c05,
+    functions=["SetSketcher::{merge, get_low_sketch}"],
+    bounds={"quick": "m=3 (u16,u32), parameters symbolic with b in (1,2], a in [1e-3,1e6], any q", "thorough": "m in {2,3,4,5}"},
+    outside="other sizes; parameter pairs closer than one relative epsilon are accepted by the code as equal parameters (its documented comparison): reported as an observation, not a violation",
+    assumptions=["Inv: lower_k is a non-negative integer-valued f64 <= min register (base case: new/reinit under C13; preserved by sketch: c04_ss_step_*; preserved by merge: here)",
+                 "overflow counters below 2^62 (their sum cannot wrap)",
+                 "std::backtrace::Backtrace::capture stubbed to a disabled backtrace (anyhow! would otherwise walk the stack)"],
+    not_decided=[],
+    level_text="Bounded model checking of SetSketcher::merge on arbitrary register vectors and arbitrary parameter tuples: exact position-wise max (so merge == sketch of the union given the join lemma), commutative, associative, idempotent, invariant preserved (further streaming after a merge stays sound), refusal on different parameters leaves the receiver bit-identical. The join lemmas for SuperMinHash (min) and SetSketch (max) are the step harnesses c04_*.",
+    level_note="Trusted: Kani/CBMC. Sizes bounded. The join lemma part of C05 is discharged by the C04 step harnesses (same evidence referenced there).",
+    technique="Kani/CBMC bounded model checking over symbolic registers and parameters",
+)
+
+
+# --------------------------------------------------------------------------------------- C04
+_LN = ["f64::ln -> memoised monotone NaN-free function with ln(x)>0 iff x>1"]
+_c04 = [
+    H("c04_ss_step_u16_m2", 2400, "quick", "SetSketcher<u16>::sketch from an arbitrary Inv-state: registers == max(old, unpruned contribution of the item), Inv kept, shuffle reset", "m=2, any registers, any (b,a,q<2^40), any item, any generator output", stubs=_LN),
+    H("c04_ss_step_u16_m3", 3600, "thorough", "same", "m=3", stubs=_LN),
+    H("c04_ss_step_u32_m2", 2400, "thorough", "SetSketcher<u32>::sketch step", "m=2", stubs=_LN),
+    H("c04_opt_step_m1", 900, "thorough", "OptDensMinHash::sketch step: chosen bin keeps the smaller r (tie: later item), others untouched, Inv kept, (r,bin) = documented function of the item stream", "m=1"),
+    H("c04_opt_step_m2", 900, "quick", "same", "m=2"),
+    H("c04_opt_step_m3", 900, "quick", "same", "m=3"),
+    H("c04_opt_step_m4", 1200, "thorough", "same", "m=4"),
+    H("c04_rev_step_m2", 900, "thorough", "RevOptDensMinHash::sketch step", "m=2"),
+    H("c04_rev_step_m3", 900, "quick", "same", "m=3"),
+    H("c04_rev_step_m4", 1200, "thorough", "same", "m=4"),
+]
+SPECS["C04"] = dict(
+    level="model_checking", harnesses=_c04,
+    functions=["SetSketcher::sketch", "OptDensMinHash::sketch", "RevOptDensMinHash::sketch", "FYshuffle::{reset,next}", "rand::distr::Uniform<f64>::sample", "rand::distr::Uniform<usize>::sample"],
+    bounds={"quick": "see harness list", "thorough": "see harness list"},
+    outside="",
+    assumptions=[],
+    not_decided=[],
+    level_text="(in progress)",
+    level_note="(in progress)",
+    technique="Kani/CBMC bounded model checking, inductive step differential against an unpruned join reference",
+    disabled=True,
+)
+
+# --------------------------------------------------------------------------------------- C09
+_NU = ["--no-unwinding-checks"]
+_c09 = [
+    H("c09_opt_densify_m1_p1", 1800, "thorough", "OptDensMinHash::end_sketch from any Inv-state with populated bins = bit mask 0b1: populated bins bit-identical, every other bin gets the (value,hash) pair of a previously populated bin, nb_empty==0, stream keys depend on the bin position only, second end_sketch changes nothing", "m=1; searches of <= 2 draws per empty bin", extra=_NU),
+    H("c09_opt_densify_m2_p1", 1800, "quick", "OptDensMinHash::end_sketch from any Inv-state with populated bins = bit mask 0b1: populated bins bit-identical, every other bin gets the (value,hash) pair of a previously populated bin, nb_empty==0, stream keys depend on the bin position only, second end_sketch changes nothing", "m=2; searches of <= 3 draws per empty bin", extra=_NU),
+    H("c09_opt_densify_m2_p2", 1800, "thorough", "OptDensMinHash::end_sketch from any Inv-state with populated bins = bit mask 0b10: populated bins bit-identical, every other bin gets the (value,hash) pair of a previously populated bin, nb_empty==0, stream keys depend on the bin position only, second end_sketch changes nothing", "m=2; searches of <= 3 draws per empty bin", extra=_NU),
+    H("c09_opt_densify_m3_p1", 1800, "thorough", "OptDensMinHash::end_sketch from any Inv-state with populated bins = bit mask 0b1: populated bins bit-identical, every other bin gets the (value,hash) pair of a previously populated bin, nb_empty==0, stream keys depend on the bin position only, second end_sketch changes nothing", "m=3; searches of <= 4 draws per empty bin", extra=_NU),
+    H("c09_opt_densify_m3_p2", 1800, "quick", "OptDensMinHash::end_sketch from any Inv-state with populated bins = bit mask 0b10: populated bins bit-identical, every other bin gets the (value,hash) pair of a previously populated bin, nb_empty==0, stream keys depend on the bin position only, second end_sketch changes nothing", "m=3; searches of <= 4 draws per empty bin", extra=_NU),
+    H("c09_opt_densify_m3_p3", 1800, "thorough", "OptDensMinHash::end_sketch from any Inv-state with populated bins = bit mask 0b11: populated bins bit-identical, every other bin gets the (value,hash) pair of a previously populated bin, nb_empty==0, stream keys depend on the bin position only, second end_sketch changes nothing", "m=3; searches of <= 4 draws per empty bin", extra=_NU),
+    H("c09_opt_densify_m3_p4", 1800, "thorough", "OptDensMinHash::end_sketch from any Inv-state with populated bins = bit mask 0b100: populated bins bit-identical, every other bin gets the (value,hash) pair of a previously populated bin, nb_empty==0, stream keys depend on the bin position only, second end_sketch changes nothing", "m=3; searches of <= 4 draws per empty bin", extra=_NU),
+    H("c09_opt_densify_m3_p5", 1800, "quick", "OptDensMinHash::end_sketch from any Inv-state with populated bins = bit mask 0b101: populated bins bit-identical, every other bin gets the (value,hash) pair of a previously populated bin, nb_empty==0, stream keys depend on the bin position only, second end_sketch changes nothing", "m=3; searches of <= 4 draws per empty bin", extra=_NU),
+    H("c09_opt_densify_m3_p6", 1800, "thorough", "OptDensMinHash::end_sketch from any Inv-state with populated bins = bit mask 0b110: populated bins bit-identical, every other bin gets the (value,hash) pair of a previously populated bin, nb_empty==0, stream keys depend on the bin position only, second end_sketch changes nothing", "m=3; searches of <= 4 draws per empty bin", extra=_NU),
+    H("c09_opt_densify_m4_p1", 1800, "thorough", "OptDensMinHash::end_sketch from any Inv-state with populated bins = bit mask 0b1: populated bins bit-identical, every other bin gets the (value,hash) pair of a previously populated bin, nb_empty==0, stream keys depend on the bin position only, second end_sketch changes nothing", "m=4; searches of <= 5 draws per empty bin", extra=_NU),
+    H("c09_opt_densify_m4_p2", 1800, "thorough", "OptDensMinHash::end_sketch from any Inv-state with populated bins = bit mask 0b10: populated bins bit-identical, every other bin gets the (value,hash) pair of a previously populated bin, nb_empty==0, stream keys depend on the bin position only, second end_sketch changes nothing", "m=4; searches of <= 5 draws per empty bin", extra=_NU),
+    H("c09_opt_densify_m4_p3", 1800, "thorough", "OptDensMinHash::end_sketch from any Inv-state with populated bins = bit mask 0b11: populated bins bit-identical, every other bin gets the (value,hash) pair of a previously populated bin, nb_empty==0, stream keys depend on the bin position only, second end_sketch changes nothing", "m=4; searches of <= 5 draws per empty bin", extra=_NU),
+    H("c09_opt_densify_m4_p4", 1800, "thorough", "OptDensMinHash::end_sketch from any Inv-state with populated bins = bit mask 0b100: populated bins bit-identical, every other bin gets the (value,hash) pair of a previously populated bin, nb_empty==0, stream keys depend on the bin position only, second end_sketch changes nothing", "m=4; searches of <= 5 draws per empty bin", extra=_NU),
+    H("c09_opt_densify_m4_p5", 1800, "thorough", "OptDensMinHash::end_sketch from any Inv-state with populated bins = bit mask 0b101: populated bins bit-identical, every other bin gets the (value,hash) pair of a previously populated bin, nb_empty==0, stream keys depend on the bin position only, second end_sketch changes nothing", "m=4; searches of <= 5 draws per empty bin", extra=_NU),
+    H("c09_opt_densify_m4_p6", 1800, "thorough", "OptDensMinHash::end_sketch from any Inv-state with populated bins = bit mask 0b110: populated bins bit-identical, every other bin gets the (value,hash) pair of a previously populated bin, nb_empty==0, stream keys depend on the bin position only, second end_sketch changes nothing", "m=4; searches of <= 5 draws per empty bin", extra=_NU),
+    H("c09_opt_densify_m4_p7", 1800, "thorough", "OptDensMinHash::end_sketch from any Inv-state with populated bins = bit mask 0b111: populated bins bit-identical, every other bin gets the (value,hash) pair of a previously populated bin, nb_empty==0, stream keys depend on the bin position only, second end_sketch changes nothing", "m=4; searches of <= 5 draws per empty bin", extra=_NU),
+    H("c09_opt_densify_m4_p8", 1800, "thorough", "OptDensMinHash::end_sketch from any Inv-state with populated bins = bit mask 0b1000: populated bins bit-identical, every other bin gets the (value,hash) pair of a previously populated bin, nb_empty==0, stream keys depend on the bin position only, second end_sketch changes nothing", "m=4; searches of <= 5 draws per empty bin", extra=_NU),
+    H("c09_opt_densify_m4_p9", 1800, "thorough", "OptDensMinHash::end_sketch from any Inv-state with populated bins = bit mask 0b1001: populated bins bit-identical, every other bin gets the (value,hash) pair of a previously populated bin, nb_empty==0, stream keys depend on the bin position only, second end_sketch changes nothing", "m=4; searches of <= 5 draws per empty bin", extra=_NU),
+    H("c09_opt_densify_m4_p10", 1800, "thorough", "OptDensMinHash::end_sketch from any Inv-state with populated bins = bit mask 0b1010: populated bins bit-identical, every other bin gets the (value,hash) pair of a previously populated bin, nb_empty==0, stream keys depend on the bin position only, second end_sketch changes nothing", "m=4; searches of <= 5 draws per empty bin", extra=_NU),
+    H("c09_opt_densify_m4_p11", 1800, "thorough", "OptDensMinHash::end_sketch from any Inv-state with populated bins = bit mask 0b1011: populated bins bit-identical, every other bin gets the (value,hash) pair of a previously populated bin, nb_empty==0, stream keys depend on the bin position only, second end_sketch changes nothing", "m=4; searches of <= 5 draws per empty bin", extra=_NU),
+    H("c09_opt_densify_m4_p12", 1800, "thorough", "OptDensMinHash::end_sketch from any Inv-state with populated bins = bit mask 0b1100: populated bins bit-identical, every other bin gets the (value,hash) pair of a previously populated bin, nb_empty==0, stream keys depend on the bin position only, second end_sketch changes nothing", "m=4; searches of <= 5 draws per empty bin", extra=_NU),
+    H("c09_opt_densify_m4_p13", 1800, "thorough", "OptDensMinHash::end_sketch from any Inv-state with populated bins = bit mask 0b1101: populated bins bit-identical, every other bin gets the (value,hash) pair of a previously populated bin, nb_empty==0, stream keys depend on the bin position only, second end_sketch changes nothing", "m=4; searches of <= 5 draws per empty bin", extra=_NU),
+    H("c09_opt_densify_m4_p14", 1800, "thorough", "OptDensMinHash::end_sketch from any Inv-state with populated bins = bit mask 0b1110: populated bins bit-identical, every other bin gets the (value,hash) pair of a previously populated bin, nb_empty==0, stream keys depend on the bin position only, second end_sketch changes nothing", "m=4; searches of <= 5 draws per empty bin", extra=_NU),
+    H("c09_rev_densify_m1_p1", 1800, "thorough", "RevOptDensMinHash::end_sketch, populated bins = bit mask 0b1, same assertions; stream keys depend on (position, pass) only", "m=1; <= 3 passes", extra=_NU),
+    H("c09_rev_densify_m2_p1", 1800, "thorough", "RevOptDensMinHash::end_sketch, populated bins = bit mask 0b1, same assertions; stream keys depend on (position, pass) only", "m=2; <= 3 passes", extra=_NU),
+    H("c09_rev_densify_m2_p2", 1800, "quick", "RevOptDensMinHash::end_sketch, populated bins = bit mask 0b10, same assertions; stream keys depend on (position, pass) only", "m=2; <= 3 passes", extra=_NU),
+    H("c09_rev_densify_m3_p1", 1800, "quick", "RevOptDensMinHash::end_sketch, populated bins = bit mask 0b1, same assertions; stream keys depend on (position, pass) only", "m=3; <= 4 passes", extra=_NU),
+    H("c09_rev_densify_m3_p2", 1800, "thorough", "RevOptDensMinHash::end_sketch, populated bins = bit mask 0b10, same assertions; stream keys depend on (position, pass) only", "m=3; <= 4 passes", extra=_NU),
+    H("c09_rev_densify_m3_p3", 1800, "thorough", "RevOptDensMinHash::end_sketch, populated bins = bit mask 0b11, same assertions; stream keys depend on (position, pass) only", "m=3; <= 4 passes", extra=_NU),
+    H("c09_rev_densify_m3_p4", 1800, "thorough", "RevOptDensMinHash::end_sketch, populated bins = bit mask 0b100, same assertions; stream keys depend on (position, pass) only", "m=3; <= 4 passes", extra=_NU),
+    H("c09_rev_densify_m3_p5", 1800, "thorough", "RevOptDensMinHash::end_sketch, populated bins = bit mask 0b101, same assertions; stream keys depend on (position, pass) only", "m=3; <= 4 passes", extra=_NU),
+    H("c09_rev_densify_m3_p6", 1800, "thorough", "RevOptDensMinHash::end_sketch, populated bins = bit mask 0b110, same assertions; stream keys depend on (position, pass) only", "m=3; <= 4 passes", extra=_NU),
+    H("c09_opt_slice_m2", 1800, "quick", "OptDensMinHash: sketch_slice(&[a,b]) == sketch(a); sketch(b); end_sketch() from the same arbitrary state (shared oracle)", "m=2", extra=_NU),
+    H("c09_opt_slice_m3", 3600, "thorough", "same", "m=3", extra=_NU),
+    H("c09_rev_slice_m2", 1800, "quick", "RevOptDensMinHash: sketch_slice == item-wise + end_sketch", "m=2", extra=_NU),
+    H("c09_rev_slice_m3", 3600, "thorough", "same", "m=3", extra=_NU),
+    H("c09_opt_views_m2", 900, "quick", "OptDensMinHash views: float view == stored r, u64 view == stored hash, u32 view == murmur3_32(hash bytes, 127) at every position", "m=2"),
+    H("c09_rev_views_m2", 900, "thorough", "RevOptDensMinHash views", "m=2"),
+    H("c09_opt_empty_end_m2", 600, "quick", "nothing streamed: OptDensMinHash::end_sketch must not search for a populated bin (it reports failure)", "m=2, <= 7 loop iterations", expect_cover="none", unwind_is_violation=True),
+    H("c09_opt_empty_slice_m2", 600, "quick", "nothing streamed: OptDensMinHash::sketch_slice(&[]) returns Err without drawing", "m=2", unwind_is_violation=True),
+    H("c09_rev_empty_end_m2", 600, "quick", "nothing streamed: RevOptDensMinHash::end_sketch reports failure instead of looping", "m=2", expect_cover="none", unwind_is_violation=True),
+    H("c09_rev_empty_slice_m2", 600, "quick", "nothing streamed: RevOptDensMinHash::sketch_slice(&[]) returns Err", "m=2", unwind_is_violation=True),
+]
+SPECS["C09"] = dict(
+    level="model_checking", harnesses=_c09,
+    functions=["OptDensMinHash::{sketch, sketch_slice, end_sketch, densify, get_hsketch, get_hsketch_u64, get_hsketch_u32}", "RevOptDensMinHash::{same}", "murmur3::murmur3_32", "rand::distr::Uniform<usize>::sample"],
+    bounds={"quick": "m in {2,3}; densification searches up to the unwinding bound (4-5 draws per empty bin / passes)", "thorough": "m in {1,2,3,4}"},
+    outside="searches longer than the unwinding bound (the harnesses run with --no-unwinding-checks: executions that need more draws are cut by an assumption; that the real ChaCha12 stream hits a populated bin at all is outside the claim because ChaCha12 does not encode); m > 4",
+    assumptions=["ChaCha12Rng = memoised oracle keyed by its seed (models/rand_chacha); Lemire rejections excluded",
+                 "pre-state invariant Inv (nb_empty counts the unpopulated bins, unpopulated bins hold the initial pair, populated bins hold r in [0,1)): base case C13, preserved by sketch (c04_*_step_*)",
+                 "termination for non-empty streams: assumed within the bound; for the EMPTY stream it is checked (no iteration may happen)"],
+    not_decided=[],
+    level_text="Bounded model checking of densification from an arbitrary pre-densification state under an oracle generator: populated bins untouched, copied pairs come from populated bins, idempotent, position-only stream keys, slice == item-wise, the three views are fixed functions of the stored pair; and on the empty stream finishing must fail fast instead of searching.",
+    level_note="Trusted: Kani/CBMC, ChaCha oracle model. Non-empty termination only within the unwinding bound (stated).",
+    technique="Kani/CBMC bounded model checking with an oracle RNG model; unwinding assertion as non-termination detector on the empty stream",
+)
